@@ -368,7 +368,12 @@ def _contraction(name, table):
         ncontr = 3 ** 3
         _judge(name, "%s[mode=%s,parallel=%s]" % (name, mode_t, bool(parallel)), result, ref,
                maxabs(OLD.A0) * maxabs(OLD.B0) * ncontr, eps_of(A, B))
-        _unchanged(name, name, [("A", A, OLD.A0), ("B", B, OLD.B0)])
+        out = _KWARGS.get("out")
+        pairs = [(nm, now, old) for nm, now, old in (("A", A, OLD.A0), ("B", B, OLD.B0))
+                 if not (isinstance(out, np.ndarray) and isinstance(now, np.ndarray) and np.shares_memory(out, now))]
+        if len(pairs) < 2:
+            _state["run"].skip("math." + name, "out= aliases an input (caller's choice): unchanged-input clause not applicable")
+        _unchanged(name, name, pairs)
         _check_out(name, name, _KWARGS, result)
         return True
     cond.__name__ = "post_" + name
